@@ -4,8 +4,8 @@ from props import tokcommon as tc
 PROP = "C04"
 ENGINE = "tok+xmltok+total"
 USES_TRANSLATOR = True
-LEAN_TARGETS = ["H5V.Props.C04", "H5V.Props.C04Term", "H5V.Props.C04Xml", "H5V.Props.C04XmlTerm", "H5V.Props.C16", "H5V.Props.C04TB", "H5V.Props.C04TB2"]
-AUDIT_IMPORTS = ["H5V.Props.C04", "H5V.Props.C04Term", "H5V.Props.C04Xml", "H5V.Props.C04XmlTerm", "H5V.Props.C16", "H5V.Props.C04TB2"]
+LEAN_TARGETS = ["H5V.Props.C04", "H5V.Props.C04Term", "H5V.Props.C04Xml", "H5V.Props.C04XmlTerm", "H5V.Props.C16", "H5V.Props.C04TB", "H5V.Props.C04TB2", "H5V.Props.C04Joint"]
+AUDIT_IMPORTS = ["H5V.Props.C04", "H5V.Props.C04Term", "H5V.Props.C04Xml", "H5V.Props.C04XmlTerm", "H5V.Props.C16", "H5V.Props.C04TB2", "H5V.Props.C04Joint"]
 THEOREMS = ["H5V.Props.C04." + t for t in [
     "C04_tok_initial_safe", "C04_tok_no_panic", "C04_tok_run_no_panic", "C04_tok_feed_drains", "C04_tok_eof_is_last",
     # termination (Props/C04Term.lean)
@@ -44,7 +44,14 @@ THEOREMS = ["H5V.Props.C04." + t for t in [
     "H5V.Props.C04TB2." + t for t in [
     "C04_tb_ptc_fuel", "C04_tb_no_panic'", "C04_tb_no_panic_protocol'", "C04_tb_no_panic_fragment'",
     "C04_tb_no_panic_protocol_fragment'", "C04_tb_total_protocol'", "C04_tb_total'", "C04_tb_total_full'"]] + [
-    "H5V.Props.C05TB.C05_tb_contract", "H5V.Props.C05TB.C05_tb_contract_fragment"]
+    "H5V.Props.C05TB.C05_tb_contract", "H5V.Props.C05TB.C05_tb_contract_fragment"] + [
+    # Props/C04Joint.lean: TOTALITY OF THE JOINT PARSE (tokenizer model with the tree-builder model as its sink, driver loop,
+    # Parser::finish): for every input, option set and chunking there is a budget N0 beyond which the outcome is fixed and is
+    # either success or a failure of a mutating sink op / one of the two <meta> messages - no panic site of tokenizer,
+    # character-reference tokenizer, tree builder or driver, no fuel or budget bound is ever hit
+    "H5V.Props.C04J." + t for t in ["C04_joint_total_chunked_partial", "C04_joint_total_partial",
+                                    "C04_joint_total_any_partial"]] + [
+    "H5V.Props.C02.C02_parse_eq_spec_total_nohrun", "H5V.Props.C02.C02_parse_eq_spec_total_chunked_nohrun"]
 TRUSTED = [
     "Lean 4 kernel; axioms ⊆ {propext, Classical.choice, Quot.sound} (audited per run)",
     "tokenizer model lean/H5V/Model/HtmlTok.lean: every assert!/unwrap/expect/panic!/index/from_u32 of tokenizer/mod.rs and "
